@@ -297,9 +297,110 @@ func cancelPool() []ExecCase {
 	return out
 }
 
+// PollCase: "after a bounded number of further evaluation steps" means a bound that does not grow with
+// the input. The work a path does on a document of n elements is known (elements visited, pairs
+// compared); the executor must look at the context at least once per 1,024 units of it, whatever n is.
+type PollCase struct {
+	Path string `json:"path"`
+	Kind string `json:"kind"` // array | tree | object | nested
+	N    int    `json:"n"`
+	Work string `json:"work"` // n | n2 (pairs)
+}
+
+func (c PollCase) doc() any {
+	num := func(i int) any { return float64(i % 7) }
+	switch c.Kind {
+	case "array":
+		a := make([]any, c.N)
+		for i := range a {
+			a[i] = num(i)
+		}
+		return a
+	case "object":
+		m := make(map[string]any, c.N)
+		for i := 0; i < c.N; i++ {
+			m[fmt.Sprintf("k%06d", i)] = num(i)
+		}
+		return m
+	case "nested": // an array of n small arrays
+		a := make([]any, c.N)
+		for i := range a {
+			a[i] = []any{num(i), num(i + 1)}
+		}
+		return a
+	default: // a 10-ary tree with about n nodes
+		var build func(n int) any
+		build = func(n int) any {
+			if n <= 1 {
+				return num(n)
+			}
+			kids := make([]any, 0, 10)
+			per := (n - 1) / 10
+			for i := 0; i < 10; i++ {
+				kids = append(kids, build(per))
+			}
+			return kids
+		}
+		return build(c.N)
+	}
+}
+
+var checkPollDensity = register("c20.polldensity", func(c PollCase) *Violation {
+	p, err, pan := ParseSafe(c.Path)
+	if err != nil || pan != "" {
+		return violf("harness: %q does not parse: %v %s", c.Path, err, pan)
+	}
+	doc := c.doc()
+	cc := newCountCtx(context.Background(), -1, nil)
+	o := RunQuery(cc, p, doc)
+	if o.Panic != "" {
+		return violf("Query(%q) on a %s of %d panicked: %s", c.Path, c.Kind, c.N, o.Panic)
+	}
+	work := c.N
+	if c.Work == "n2" {
+		work = c.N * c.N
+	}
+	if need := work / 1024; cc.polls < need {
+		return violf("Query(%q) on a %s document of size %d does about %d units of work (elements visited / pairs compared) but looked at the context only %d times: a context that becomes done is not noticed within a bounded number of steps (at least one look per 1,024 units = %d expected)", c.Path, c.Kind, c.N, work, cc.polls, need)
+	}
+	return nil
+})
+
+func pollCases() []PollCase {
+	var out []PollCase
+	for _, n := range []int{20000, 200000} {
+		out = append(out,
+			PollCase{Path: "$[*]", Kind: "array", N: n, Work: "n"}, PollCase{Path: "$[0 to last]", Kind: "array", N: n, Work: "n"}, PollCase{Path: "strict $[*]", Kind: "array", N: n, Work: "n"},
+			PollCase{Path: "$.*", Kind: "object", N: n, Work: "n"}, PollCase{Path: "$.**", Kind: "tree", N: n, Work: "n"}, PollCase{Path: "$.**{3}", Kind: "tree", N: n, Work: "n"}, PollCase{Path: "strict $.**{1 to last}", Kind: "tree", N: n, Work: "n"},
+			PollCase{Path: "$.**{9}.x", Kind: "tree", N: n, Work: "n"}, PollCase{Path: "$.keyvalue()", Kind: "object", N: n, Work: "n"}, PollCase{Path: "$[*][0]", Kind: "nested", N: n, Work: "n"},
+			PollCase{Path: "$[*] ? (@ > 100)", Kind: "array", N: n, Work: "n"}, PollCase{Path: "-$[*]", Kind: "array", N: n, Work: "n"}, PollCase{Path: "$[*].abs()", Kind: "array", N: n, Work: "n"},
+			PollCase{Path: "exists($[*] ? (@ > 100))", Kind: "array", N: n, Work: "n"}, PollCase{Path: "$.** ? (@ > 100)", Kind: "tree", N: n, Work: "n"})
+	}
+	for _, n := range []int{300, 1500} {
+		out = append(out, PollCase{Path: "$[*] > $[*]", Kind: "array", N: n, Work: "n2"}, PollCase{Path: "strict $[*] == $[*]", Kind: "array", N: n, Work: "n2"}, PollCase{Path: `$[*] starts with "a"`, Kind: "array", N: n * n / 4, Work: "n"},
+			PollCase{Path: "strict $ ? (@[*] < $[*])", Kind: "array", N: n, Work: "n2"})
+	}
+	return out
+}
+
 func TestC20(t *testing.T) {
 	ev := newEv(t, "C20")
 	ev.replayTier(t)
+	t.Run("poll_density", func(t *testing.T) {
+		b := ev.enum(t)
+		cs := pollCases()
+		for i, c := range cs {
+			if !mine(i) {
+				continue
+			}
+			ev.Eval(fmt.Sprintf("poll:%s:%s:%d", c.Path, c.Kind, c.N), true)
+			ev.Sample("poll_density", c)
+			if !b.Check("c20.polldensity", c, checkPollDensity(c)) {
+				return
+			}
+		}
+		ev.Exhaustive("paths_by_document_size_poll_density", int64(len(cs)))
+	})
 	record := func(class string, c CancelCase, f cancelFacts) {
 		// each (path, doc) contributes its runs; non-trivial = it had mid-execution fault points on an interesting path
 		ev.mu.Lock()
